@@ -20,13 +20,34 @@ def chunked(it, n):
 
 
 def pmap(fn, chunks, jobs):
-    """fn(chunk) -> (evaluations, nontrivial, failures)"""
+    """fn(chunk) -> (evaluations, nontrivial, failures).  The chunks may come from a huge generator: at most 3 x jobs of them are in
+    flight at any time (multiprocessing's own imap reads the whole input ahead and exhausts memory in the thorough tier)."""
     ctx = mp.get_context('fork')
     ev = nt = 0
     fails = []
+    window = max(2, 3 * jobs)
+    it = iter(chunks)
     with ctx.Pool(jobs) as pool:
-        for e, n, f in pool.imap_unordered(fn, chunks, chunksize=1):
-            ev += e
-            nt += n
-            fails.extend(f)
+        pending = []
+
+        def drain(block):
+            nonlocal ev, nt
+            keep = []
+            for r in pending:
+                if r.ready() or block:
+                    e, n, f = r.get()
+                    ev += e
+                    nt += n
+                    if len(fails) < 200:
+                        fails.extend(f)
+                    block = False
+                else:
+                    keep.append(r)
+            pending[:] = keep
+        for ch in it:
+            pending.append(pool.apply_async(fn, (ch,)))
+            while len(pending) >= window:
+                drain(True)
+        while pending:
+            drain(True)
     return ev, nt, fails[:50]
